@@ -236,6 +236,17 @@ func Harness_C17_TypesFieldsParams() {
 	A := &sysl.Type{Type: &sysl.Type_Primitive_{Primitive: sysl.Type_INT}}
 	popt := nd.Bool("param.opt")
 	ep := &sysl.Endpoint{Name: "ep", Param: []*sysl.Param{{Name: "p", Type: &sysl.Type{Type: &sysl.Type_Primitive_{Primitive: sysl.Type_INT}, Opt: popt}}, {Name: "q"}}}
+	// query and path parameters of a REST endpoint; a query parameter may be typed with a
+	// bare name, which the compiler stores as a type without a kind but with its optional flag
+	qopt := nd.Bool("query-param.opt")
+	qbare := nd.Bool("query-param.bare-type-name")
+	qtype := &sysl.Type{Type: &sysl.Type_Primitive_{Primitive: sysl.Type_STRING}, Opt: qopt}
+	if qbare {
+		qtype = &sysl.Type{Opt: qopt}
+	}
+	ep.RestParams = &sysl.Endpoint_RestParams{Method: sysl.Endpoint_RestParams_GET, Path: "/x/{id}",
+		QueryParam: []*sysl.Endpoint_RestParams_QueryParam{{Name: "filter", Type: qtype}},
+		UrlParam:   []*sysl.Endpoint_RestParams_QueryParam{{Name: "id", Type: &sysl.Type{Type: &sysl.Type_Primitive_{Primitive: sysl.Type_INT}}}}}
 	app := &sysl.Application{Name: &sysl.AppName{Part: []string{"App"}},
 		Types:     map[string]*sysl.Type{"T": T, "E": E, "A": A},
 		Endpoints: map[string]*sysl.Endpoint{"ep": ep},
@@ -294,13 +305,17 @@ func Harness_C17_TypesFieldsParams() {
 			nd.Assert("field:known-name", false)
 		}
 	}
-	nd.Assert("app:one-row-per-param", len(s.Param) == 2)
+	nd.Assert("app:one-row-per-param", len(s.Param) == 4)
 	for _, p := range s.Param {
 		switch p.ParamName {
 		case "p":
 			nd.Assert("param:optionality-and-index", p.ParamOpt == popt && p.ParamIndex == 0 && p.ParamLoc == "method")
 		case "q":
 			nd.Assert("param:untyped", p.ParamIndex == 1 && !p.ParamOpt)
+		case "filter":
+			nd.Assert("param:query-parameter-keeps-optionality", p.ParamOpt == qopt && p.ParamLoc == "query")
+		case "id":
+			nd.Assert("param:path-parameter", !p.ParamOpt && p.ParamLoc == "path")
 		default:
 			nd.Assert("param:known-name", false)
 		}
